@@ -254,11 +254,12 @@ pub struct LayerStats {
     pub undefined_pairs: u64,
     pub true_results: u64,
     pub false_results: u64,
+    pub history_sequences: u64,
 }
 
 pub fn function_layer(ctx: &Ctx, samples: &mut Samples) -> LayerStats {
     let thorough = ctx.tier == Tier::Thorough;
-    let mut st = LayerStats { evaluations: 0, distinct: BTreeSet::new(), undefined_pairs: 0, true_results: 0, false_results: 0 };
+    let mut st = LayerStats { evaluations: 0, distinct: BTreeSet::new(), undefined_pairs: 0, true_results: 0, false_results: 0, history_sequences: 0 };
     for op in BINARY_OPS {
         for (t, ls, rs) in domains(op, thorough) {
             for l in &ls {
@@ -292,6 +293,7 @@ pub fn function_layer(ctx: &Ctx, samples: &mut Samples) -> LayerStats {
             }
         }
     }
+    history_layer(ctx, &mut st, thorough);
     // the precompiled-regex fast path used for variable operands
     for l in values_of(TyK::Str, thorough) {
         for r in non_null_values(TyK::Str, thorough) {
@@ -309,6 +311,65 @@ pub fn function_layer(ctx: &Ctx, samples: &mut Samples) -> LayerStats {
     st
 }
 
+/// Reduced operand alphabet for call *sequences*: null + a few values spread over the boundary alphabet;
+/// strings chosen so that valid, invalid and matching / non-matching patterns all occur.
+fn history_alphabet(t: TyK, vals: &[FV], right: bool, thorough: bool) -> Vec<FV> {
+    if t == TyK::Str && vals.iter().all(|v| matches!(v, FV::Null | FV::String(_))) {
+        let mut v: Vec<FV> = if right { vec![FV::Null, values::s("a"), values::s("("), values::s("a.*"), values::s("^b")] } else { vec![FV::Null, values::s(""), values::s("a"), values::s("ab")] };
+        if thorough {
+            v.push(values::s(if right { "[z" } else { "ba" }));
+        }
+        return v;
+    }
+    let non_null: Vec<&FV> = vals.iter().filter(|v| !matches!(v, FV::Null)).collect();
+    let want = if thorough { 6 } else { 4 };
+    let mut out = vec![FV::Null];
+    if !non_null.is_empty() {
+        for k in 0..want.min(non_null.len()) {
+            let idx = k * (non_null.len() - 1) / (want.min(non_null.len()) - 1).max(1);
+            let v = non_null[idx].clone();
+            if !out.contains(&v) {
+                out.push(v);
+            }
+        }
+    }
+    out
+}
+
+/// "The result depends only on the two operands": every sequence of three consecutive calls of one
+/// operator over the reduced alphabet (so any state a call leaves behind — a cached pattern, a
+/// reused buffer — meets every next operand pair), each call compared with the definition.
+fn history_layer(ctx: &Ctx, st: &mut LayerStats, thorough: bool) {
+    for op in BINARY_OPS {
+        for (t, ls, rs) in domains(op, thorough) {
+            let la = history_alphabet(t, &ls, false, thorough);
+            let ra = history_alphabet(t, &rs, true, thorough);
+            let pairs: Vec<(FV, FV, bool)> = la.iter().flat_map(|l| ra.iter().map(move |r| (l.clone(), r.clone()))).filter_map(|(l, r)| reference(op, &l, &r).map(|e| (l, r, e))).collect();
+            // pairs the engine gets wrong or panics on in isolation are the single-call layer's business
+            let pairs: Vec<(FV, FV, bool)> = pairs.into_iter().filter(|(l, r, e)| matches!(catch(|| call_engine(op, l, r)), Ok(g) if g == *e)).collect();
+            for a in &pairs {
+                for b in &pairs {
+                    for c in &pairs {
+                        st.history_sequences += 1;
+                        for (step, x) in [a, b, c].into_iter().enumerate() {
+                            st.evaluations += 1;
+                            let got = catch(|| call_engine(op, &x.0, &x.1));
+                            if !matches!(got, Ok(g) if g == x.2) {
+                                let seq: Vec<Value> = [a, b, c].iter().map(|y| json!({"left": show(&y.0), "right": show(&y.1), "expected": y.2})).collect();
+                                ctx.fail(
+                                    &format!("op-result-depends-on-call-history:{op}"),
+                                    &format!("operator {op} gave a different result for the same operands after other calls"),
+                                    json!({"layer": "function-history", "op": op, "left_type": t.gql(), "call_sequence": seq, "failing_step": step, "observed": match got { Ok(g) => json!(g), Err(p) => p.to_json() }}),
+                                );
+                            }
+                        }
+                    }
+                }
+            }
+        }
+    }
+}
+
 pub fn run(ctx: &Ctx) -> ! {
     let mut samples = Samples::new(5);
     let a = function_layer(ctx, &mut samples);
@@ -318,9 +379,9 @@ pub fn run(ctx: &Ctx) -> ! {
     c.insert("distinct_nontrivial".into(), json!(a.distinct.len()));
     c.insert(
         "rule".into(),
-        json!("layer (a): every (operator, left, right) with operands from the boundary alphabet restricted to pairs a type-checked query can produce; distinct = distinct (operator, left value, right value) triples whose result the documentation defines. layer (b): the same scalar/list pairs sent through a real query with the right operand as a variable and as a tag; counted separately in wiring_*"),
+        json!("layer (a): every (operator, left, right) with operands from the boundary alphabet restricted to pairs a type-checked query can produce; distinct = distinct (operator, left value, right value) triples whose result the documentation defines. layer (b): the same scalar/list pairs sent through a real query with the right operand as a variable and as a tag; counted separately in wiring_*. layer (a'): every sequence of three consecutive calls of each operator over a reduced operand alphabet, each call compared with the definition (results must not depend on earlier calls)"),
     );
-    c.insert("function_layer".into(), json!({"evaluations": a.evaluations, "defined_distinct": a.distinct.len(), "undefined_by_docs_skipped": a.undefined_pairs, "true_results": a.true_results, "false_results": a.false_results}));
+    c.insert("function_layer".into(), json!({"evaluations": a.evaluations, "defined_distinct": a.distinct.len(), "undefined_by_docs_skipped": a.undefined_pairs, "true_results": a.true_results, "false_results": a.false_results, "three_call_sequences": a.history_sequences}));
     c.insert("wiring_layer".into(), json!({"evaluations": b.evaluations, "queries_compiled": b.queries, "true_results": b.true_results, "false_results": b.false_results, "rejected_by_arg_validation": b.rejected}));
     c.insert("samples".into(), json!(samples.items));
     c.insert("exhaustive".into(), json!(true));
